@@ -2,7 +2,7 @@
 C13 — fail-stop: property theorems about the tools' skeleton (Sqfs/Model/FailStop.lean) and the block
 processor with fallible primitives (Sqfs/Model/FailStopBlockProc.lean).
 
-`Variant.current` is /repo as it is (HEAD 7b8be86: the realpath repair b5ce20d and the three result-checking repairs
+`Variant.current` is /repo as it is (HEAD d69b61b: the realpath repair b5ce20d and the three result-checking repairs
 are part of the source; standard output of rdsquashfs is *not* checked); `Variant.fixed` is /repo +
 fixes/C13-check-stdout-errors.patch; `Variant.beforeRealpath` (before b5ce20d) and `Variant.snapshot` (the source as
 first pinned) exist for the regression witnesses in Sqfs/Witness/C13.lean only.
